@@ -218,6 +218,14 @@ func (p *Pool) MarkUnavailable(ip net.IP) {
 
 	p.unavailable[ip.String()] = struct{}{}
 
+	// Drop the allocation so the address is neither re-offered to its holder
+	// nor returned to the free list by a later Release
+	for mac, allocatedIP := range p.allocated {
+		if allocatedIP.Equal(ip) {
+			delete(p.allocated, mac)
+		}
+	}
+
 	// Remove from available
 	for i, avail := range p.available {
 		if avail.Equal(ip) {
